@@ -80,7 +80,8 @@ def work(args):
                     off = total
                 r["rfail_after"] = off
                 r["chunk"] = [0, 1, 13][(seq_no + variant) % 3]
-                what = "read fails after byte %d (%s line %d of %d)" % (off, "inside" if rec["rd"]["mid"] else "in front of", li, len(lines))
+                r["ronce"] = (seq_no + variant) % 2 == 1        # a transient error (later reads would succeed) or a persistent one
+                what = "read fails%s after byte %d (%s line %d of %d)" % (" once" if r["ronce"] else "", off, "inside" if rec["rd"]["mid"] else "in front of", li, len(lines))
             reqs += [ff, r]
             meta.append((seq_no, rec, variant, lines, ids, cfg, crlf, data, what, r))
             if rec["faulted"]:
@@ -283,7 +284,7 @@ def atlas_faults(b, v, tier, seed):
         envs.setdefault(json.dumps([r["n"], r["fault"]], sort_keys=True), r)
     pool = sl.Pool(seed)
     root = tempfile.mkdtemp(prefix="c08atl-", dir=b.root)
-    work = [(r, var) for r in envs.values() if r["fault"]["kind"] != "none" for var in range(2 if tier == "quick" else 6)]
+    work = [(r, var) for r in envs.values() if r["fault"]["kind"] != "none" and r.get("keyOk", True) for var in range(2 if tier == "quick" else 6)]
 
     def one(args):
         rec, var = args
